@@ -49,7 +49,7 @@ def main():
             rcq, oq = sh('./check %s --tier quick' % cid, cwd=HERE, env=cenv)
             checks[cid + ':quick'] = {'exit': rcq, 'violations': oq.count('VIOLATION property='), 'wall_s': round(time.time() - t0, 1),
                                       'keys': [l.strip()[:200] for l in oq.splitlines() if l.startswith('  [')][:6]}
-            if rcq == 0:
+            if rcq == 0 and (cid == pid or os.environ.get('SEED_THOROUGH_ALL')):
                 t0 = time.time()
                 rcth, oth = sh('./check %s --tier thorough' % cid, cwd=HERE, env=cenv)
                 checks[cid + ':thorough'] = {'exit': rcth, 'violations': oth.count('VIOLATION property='), 'wall_s': round(time.time() - t0, 1),
